@@ -196,7 +196,43 @@ def units_ref0(ref=None, offset_units=False):
     return P
 
 
+def asm_units(fmt='dense'):
+    """a group with an assembled jacobian (DirectSolver) whose INTERNAL connection converts units, between linear components whose
+    partials are constant and declared once with rows/cols/val"""
+    P = Prog('asm_units')
+    a = P.indep('a', (2,), kind='ivc')
+    c0 = P.comp('c0', '', {'x': In(a, shape=(2,))}, {'y': dict(shape=(2,))}, {'y': q22('x')}, 'dense')
+    c1 = P.comp('c1', 'g', {'x': In(c0['y'], shape=(2,))}, {'y': dict(shape=(2,), units='m')},
+                {'y': [[T(2, ('x', 0, 1)), T(-1, ('x', 1, 1))], [T(3, ('x', 1, 1))]]}, 'const')
+    c2 = P.comp('c2', 'g', {'u': In(c1['y'], shape=(2,), units='cm', via='connect_local')}, {'z': dict(shape=(2,))},
+                {'z': [[T(1, ('u', 0, 1)), T(4, ('u', 1, 1))], [T(-2, ('u', 0, 1))]]}, 'const')
+    c3 = P.comp('c3', '', {'w': In(c2['z'], shape=(2,))}, {'f': dict(shape=(1,))}, {'f': q2s('w')}, 'dense')
+    P.group_opts['g'] = dict(linear_solver=_direct(True), assembled_jac_type=fmt)
+    P.ofs, P.wrts = [c3['f'].abs, c2['z'].abs], [a.abs]
+    P.features = ['assembled jacobian ' + fmt, 'unit conversion on a connection inside the assembled group', 'constant rows/cols partials']
+    return P
+
+
+def rhs_redundant():
+    """rev-mode cache of adjoint solutions (DirectSolver rhs_checking): response w = -3 z depends on response z, both through group g"""
+    P = Prog('rhs_redundant')
+    a = P.indep('a', (2,), kind='ivc')
+    c0 = P.comp('c0', '', {'x': In(a, shape=(2,))}, {'y': dict(shape=(2,))}, {'y': q22('x')}, 'dense')
+    c1 = P.comp('c1', 'g', {'x': In(c0['y'], shape=(2,))}, {'y': dict(shape=(2,))},
+                {'y': [[T(2, ('x', 0, 1)), T(-1, ('x', 1, 1))], [T(3, ('x', 1, 1)), T(1, ('x', 0, 1))]]}, 'const')
+    c2 = P.comp('c2', 'g', {'u': In(c1['y'], shape=(2,), via='connect_local')}, {'z': dict(shape=(1,))},
+                {'z': [[T(1, ('u', 0, 1)), T(4, ('u', 1, 1))]]}, 'const')
+    c3 = P.comp('c3', '', {'v': In(c2['z'], shape=(1,))}, {'w': dict(shape=(1,))}, {'w': [[T(-3, ('v', 0, 1))]]}, 'const')
+    P.group_opts['g'] = dict(linear_solver=lambda: om.DirectSolver(rhs_checking=True))
+    P.ofs, P.wrts = [c2['z'].abs, c3['w'].abs], [a.abs]
+    P.desvars = [(a.abs, {})]
+    P.responses = [(c2['z'].abs, {}, 'obj'), (c3['w'].abs, dict(upper=0.0), 'con')]
+    P.features = ['DirectSolver rhs_checking', 'redundant adjoint solves: anti-parallel right-hand sides with ratio -3']
+    return P
+
+
 LIBRARY = {
+    'asm_units_dense': lambda: asm_units('dense'), 'asm_units_csc': lambda: asm_units('csc'), 'rhs_redundant': rhs_redundant,
     'units_ref0': units_ref0, 'units_ref_ref0': lambda: units_ref0(ref=Fr(-2)),
     'basic': basic, 'basic_scaled': lambda: basic(scaled=True), 'basic_mf_sparse': lambda: basic('mf', 'sparse'),
     'idx_flat': idx_flat, 'idx_nonflat': idx_nonflat, 'auto_units': auto_units, 'promote_chain': promote_chain,
